@@ -162,7 +162,9 @@ def _consume_sites(facts, tr, W, adt):
             v = peel(v[1])
         if v[0] == "binop" and v[1] in ("Add", "AddWithOverflow", "Sub", "SubWithOverflow"):
             a, bnode = peel(v[2]), peel(v[3])
-            if a[0] == "field" and a[2] == fname and bnode[0] == "const" and bnode[3] == "1":
+            # the field as read, or what an earlier write on the path stored (a refresh inlined above the consume)
+            a_alts = [peel(x) for x in leaves(a)]
+            if any(a_[0] == "field" and a_[2] == fname for a_ in a_alts) and bnode[0] == "const" and bnode[3] == "1":
                 out.append((i, j, fname, "step"))
         # `if let Some(rest) = self.f.checked_sub(1) { self.f = rest; .. }`: a step whose Some edge is its own capacity guard
         w_ = val
